@@ -282,6 +282,10 @@ class SimEnv:
                 status = "done"
             except simsched.Deadlock as d:
                 status = "deadlock:" + ",".join(f"{t}@{op}" for t, op in d.blocked)
+            # an exception in the consumer, the feeding thread or the replace thread is a failure of the code under test
+            for n, t in self.sched.threads.items():
+                if t.error is not None and not n.startswith("W"):
+                    status = f"error:{n}:{type(t.error).__name__}:{t.error}"
             # snapshot what the oracle looks at *before* the parked threads are released (their `finally` clauses run then)
             self.final_logs = {k: list(v) for k, v in self.logs.items()}
             self.final_finished = {n: t.finished for n, t in self.sched.threads.items()}
